@@ -295,10 +295,11 @@ func (e *Exec) callFunction(fn *ssa.Function, args []Value, bind []Value) Value 
 	if sym, ok := e.cfg.Abstract[name]; ok {
 		return e.abstractCall(fn, sym, args)
 	}
-	if h, ok := intrinsics[name]; ok {
+	if h, ok := intrinsics[name]; ok && e.skipIntrinsic != fn {
 		e.rep.Stubs[name]++
 		return h(e, fn, args)
 	}
+	e.skipIntrinsic = nil
 	if e.cfg.Summarize[name] {
 		if r := e.trySummary(fn, args); r != nil {
 			return r
@@ -994,4 +995,10 @@ func (e *Exec) noteBlock(b *ssa.BasicBlock) {
 		return
 	}
 	bc.Hit[b.Index] = true
+}
+
+// runBody executes fn from its source although a model is registered for it (the model covers only part of its domain).
+func (e *Exec) runBody(fn *ssa.Function, args []Value) Value {
+	e.skipIntrinsic = fn
+	return e.callFunction(fn, args, nil)
 }
